@@ -92,3 +92,17 @@ Theorem C10_calls_rows : forall ops s rows f, arun_calls_raw s ops = (rows, Some
   exists evs, steps s ops = Some (f, evs) /\ odd_rows rows = map (calls_of 1) evs.
 Proof. exact arun_calls_steps. Qed.
 Print Assumptions C10_calls_rows.
+
+(* "On any number of threads": the handles may cross threads exactly when std's Arc may.  Read off the declarations regenerated from the current source
+   (gen/AutoTraits_Src.v, the translator of C09): the explicit `unsafe impl Send` / `unsafe impl Sync` of CArc<T> and CArcSome<T> carry the very bounds
+   of Arc<T> — both markers require the payload to be Send AND Sync. *)
+Require Verif.model.AutoTrait Verif.gen.AutoTraits_Src.
+From Coq Require Import String.
+Open Scope string_scope.
+Definition markers_of (n : string) : option (option (list AutoTrait.bound) * option (list AutoTrait.bound)) :=
+  option_map (fun a => (AutoTrait.a_send a, AutoTrait.a_sync a)) (AutoTrait.lookup AutoTraits_Src.env n).
+Theorem C10_thread_markers :
+  markers_of "std::Arc" = Some (Some [(0%nat, true, true)], Some [(0%nat, true, true)]) /\
+  markers_of "CArc" = markers_of "std::Arc" /\ markers_of "CArcSome" = markers_of "std::Arc".
+Proof. vm_compute. repeat split; reflexivity. Qed.
+Print Assumptions C10_thread_markers.
